@@ -974,3 +974,34 @@ def rule_confirmed_origin(fx, col):
                         'after ptr != confirm and a failed pay-back the published pointer is returned as the loaded value: whoever paid the debt '
                         'may be a writer of ANOTHER container holding a different value at the same (recycled) address', b.loc(nbb))
     col.floor('CONFIRMED-ORIGIN', 'fast-path constructions', n, 1)
+    # second site of the same root cause: the helped reader of the fallback puts its (never confirmed) candidate into the
+    # helping slot and, when the pay-back of that slot FAILS, releases "its" count with this container's type. The payer may
+    # have been a writer of another container that holds a different value (of a different type) at the recycled address.
+    m = 0
+    for b in fx.lib.bodies:
+        opens = [(bb, t, cb) for bb, t, cb in cx.local_calls(b) if cx.publishes_intent(cb.key) and not cx.confirms_intent(cb.key) and not b.is_cleanup(bb)]
+        cell = [s_ for s_ in cx.summ.sites_by_body.get(b.key, ()) if s_.cls == 'cell' and s_.op == 'load']
+        if not opens or not cell:
+            continue
+        for bb, t in b.calls(include_cleanup=False):
+            if not ((t['callee'].get('trait') or '').endswith('ref_cnt::RefCnt') and U.callee_name(t) == 'dec'):
+                continue
+            src = _call_bbs(b, t['args'][0])
+            if not (src and src <= {c.bb for c in cell}):
+                continue
+            # released on the failed outcome of a pay of that same pointer?
+            after_failed_pay = False
+            for (sbb, truth, d) in _switch_guard(b, bb):
+                if d[0] == 'call' and _is_pay(d[2]) and not truth and _call_bbs(b, d[2]['args'][1]) == src:
+                    after_failed_pay = True
+            if not after_failed_pay:
+                continue
+            m += 1
+            # confirmed = the pointer was compared equal to a re-read of the cell on the way here; the helped arm has no such test
+            confirmed = any(d[0] == 'rv' and d[3]['k'] == 'binop' and d[3]['op'] in ('Eq', 'Ne') and ((d[3]['op'] == 'Eq') == truth)
+                            for (sbb, truth, d) in _switch_guard(b, bb))
+            col.add('CONFIRMED-ORIGIN', '%s|count of an unconfirmed candidate released after a failed pay-back' % b.fname, confirmed,
+                    'the candidate read from the cell was never confirmed (the reader was helped instead) but sat in the helping slot; when its pay-back fails the '
+                    'count "someone paid" is released with this container\'s type, although the payer may be a writer of ANOTHER container holding a different value at '
+                    'the recycled address', b.loc(bb))
+    col.floor('CONFIRMED-ORIGIN', 'helped-arm releases', m, 1)
